@@ -13,7 +13,7 @@ CONFIG = {
         "name": "pools", "pkg": "./data/pools/", "run": "^TestVerifC20Pool$",
         "files": ["data/pools/zz_verif_c20_pool_test.go"],
         "util": [("data/pools", "pools")],
-        "env": {"quick": {"VERIF_C20P_UNIVERSES": 2, "VERIF_C20P_ROUNDS": 10},
+        "env": {"quick": {"VERIF_C20P_UNIVERSES": 3, "VERIF_C20P_ROUNDS": 8},
                 "thorough": {"VERIF_C20P_UNIVERSES": 6, "VERIF_C20P_ROUNDS": 30}},
         "timeout": {"quick": 900, "thorough": 3300},
         "search_tier": "quick",
@@ -23,7 +23,10 @@ CONFIG = {
             "minimum balance of sender or receiver, dead in the past / future, duplicate of a committed or of a pooled group, wrong genesis hash, fee "
             "too low, inconsistent / empty / incomplete group id, malformed, oversize, close-then-spend, failing second member; 'rich' universes add "
             "rewards, asset create / opt-in / transfer / close-out, online and offline key registration with short key validity, leases, rekeying) -> "
-            "ledger 1: StartEvaluator(Generate, Validate), TestTransactionGroup + TransactionGroup per group, GenerateBlock(random participating set), "
+            "ledger 1: StartEvaluator(Generate, Validate), groups fed through TransactionGroup as the pool's pending evaluator is (TestTransactionGroup is "
+            "run as well and must not be stricter); a third of the rounds assemble a FULL block the way the pool does: lowered node-local size cap "
+            "(300..2700 bytes), groups offered until one does not fit (ErrNoSpace), then GenerateBlock immediately (or, in a third of those, the remaining "
+            "groups are still offered); GenerateBlock(random participating set), "
             "FinishBlock(random proposer, eligibility) -> ledger 2: Ledger.Validate with real signature verification and its own empty verified-txn "
             "cache; then eval.Eval of the same block in 9 runtime variants (prefetcher on / off by failing every ledger read issued from prefetcher "
             "goroutines; 1-worker and runtime.NumCPU()-worker execution pool; empty / warm / half-filled / mocked verified-txn cache; validate on / "
@@ -32,11 +35,13 @@ CONFIG = {
             "transaction, StateProofTracking, bogus / duplicate expired and absent accounts, Bonus, Round, Branch, TimeStamp, CongestionTax, "
             "UpgradeState, a corrupted signature or AuthAddr against an empty and against a warm cache) through Ledger.Validate.  spec_ok = the "
             "generated block validates AND all 10 canonical (sorted) StateDelta digests are equal AND the validator's delta equals the generator's "
-            "outside fee sink / proposer AND every applicable mutant is rejected.  Plain universes (payments, no rewards; consensus v39, v41, current, "
+            "outside fee sink / proposer AND every applicable mutant is rejected AND the generated header read against the generated payset alone is right "
+            "(Load = ComputeLoad(sum of encoded lengths), TxnCounter = previous + count, FeesCollected = sum of fees).  Plain universes (payments, no rewards; consensus v39, v41, current, "
             "future) are also replayed through the Coq model: accepted groups, every generate-computed header field, payset with ApplyData, generator "
             "delta, finished proposer / payout, validator verdict and delta (validate on and off) must coincide.  A second harness (package data/pools) takes "
             "the block from the REAL TransactionPool: Remember of random signed payment groups, OnNewBlock / recomputeBlockEvaluator, AssembleBlock "
-            "(incl. the pool-behind / deadline empty-block fall-backs), FinishBlock, then Ledger.Validate on a second ledger, a second validation on "
+            "(incl. the pool-behind / deadline empty-block fall-backs; two of the protocols are current / future with MaxTxnBytesPerBlock = 2400 so that "
+            "recomputeBlockEvaluator hits ErrNoSpace and generates FULL blocks), FinishBlock, then Ledger.Validate on a second ledger, a second validation on "
             "the pool's ledger and a non-validating Eval (equal digests), the generator's delta outside fee sink / proposer, and 6..8 header / payset "
             "mutants.  Non-trivial = at least one accepted and one dropped group and at least 6 applicable mutants; distinct = distinct case lines.",
     "exhaustive": {"quick": False, "thorough": False},
@@ -61,7 +66,9 @@ CONFIG = {
         "modelled as the identity on (txid, ApplyData) lists (binding of the Merkle commitment: C37 / collision resistance)",
         "per group the state-independent checks that are the same code in both modes (Txn.WellFormed, group-id consistency / completeness, "
         "SummarizeFees + CheckGroupFees) and per transaction Alive's genesis checks and GetEncodedLength are inputs computed by the real functions",
-        "a failing group leaves the evaluator unchanged (C19); the group structure of the payset is explicit (DecodePaysetGroups)",
+        "a failing group -- ErrNoSpace included -- leaves the evaluator unchanged (C19; the model drops it by construction, so a counter that keeps "
+        "a trace of a dropped group is caught by the harness: the generated block is then rejected by the validator or fails the header-against-payset "
+        "oracle); the group structure of the payset is explicit (DecodePaysetGroups)",
         "C20_generate_validates: ApplyData-carrying protocol, RewardUnit > 0, a non-zero proposer when payouts are enabled, money supply below 2^64 "
         "(every finite set of accounts sums to at most S < 2^64: C18); C20_generate_validates_eq needs no supply premise",
     ],
